@@ -1,8 +1,9 @@
 (* C14 property theorems.  Nothing but statements closed by `exact`, each followed by Print Assumptions.
    Moduli lists: any length >= 1, any order, every modulus > 0, pairwise coprime (good_moduli).
    "int" = IntRNSsystem (Integer residues), "dom" = RNSsystem<RING,Domain> (residues are domain elements).
-   Statements: ProofsSystem.v (Reciprocals_stmt, Garner_stmt, Unique_stmt, Inverse_stmt, *_history_stmt,
-   *_end_to_end_stmt, Functor_*_stmt). *)
+   Statements: ProofsSystem.v (Reciprocals_stmt, Garner_stmt, Unique_stmt, Unique_no_coprime_stmt, Inverse_stmt,
+   *_history_stmt, *_end_to_end_stmt, Functor_*_stmt), ProofsPoly.v (Poly_crt_full_stmt), ProofsBalanced.v (Balanced_stmt,
+   Fixed_pair_stmt), ProofsFixed.v (Fixed_tree_stmt), ProofsLift.v (Lift_chain_stmt). *)
 From Coq Require Import ZArith List.
 From C14 Require Import Model ProofsArith ProofsGarner ProofsSystem ProofsPoly ProofsBalanced ProofsFixed ProofsLift.
 Import ListNotations.
